@@ -2,8 +2,10 @@
 
 use crate::core::{Check, Engine, Part};
 use crate::engine_a;
+use crate::engine_b;
 
 pub const A: Engine = Engine { name: "serve-sim", run: engine_a::run };
+pub const B: Engine = Engine { name: "chunk-sim", run: engine_b::run };
 
 fn part(engine: Engine, mode: u32, q: u64, t: u64, what: &'static str) -> Part {
     Part { engine, mode, runs_quick: q, runs_thorough: t, what }
@@ -40,9 +42,38 @@ pub fn all() -> Vec<Check> {
             assumptions: vec![],
         },
         Check {
+            prop: "C08",
+            level: "exploration",
+            parts: vec![part(B, 0, 300_000, 20_000_000, "producer/consumer operation histories over the real BodyWriter + Body, identity coding")],
+            rule: "one run = seeded config (chunk size, level, Accept-Encoding, payload kind) + up to 12 interleaved producer/consumer operations + drop + drain; non-trivial = bytes were written and compared with what the client decoded; distinct = (config, operation kinds in order)",
+            assumptions: vec![],
+        },
+        Check {
+            prop: "C09",
+            level: "exploration",
+            parts: vec![part(B, 0, 200_000, 10_000_000, "as C08 with gzip negotiated, levels 1..9; independent inflater after every flush and at the end")],
+            rule: "as C08; the client decodes with a hand-written RFC 1951/1952 decoder; non-trivial = a gzip body was produced and decoded",
+            assumptions: vec!["the independent inflater (sim/src/inflate.rs) is trusted; it shares no code with flate2/miniz_oxide"],
+        },
+        Check {
+            prop: "C11",
+            level: "fault_enumeration",
+            parts: vec![part(B, 0, 300_000, 20_000_000, "abort / body-drop injected at every position of chunk-sim histories, plus queue-release scenarios")],
+            rule: "fault = abort or body drop at a drawn position of a drawn operation history (raw and gzip); non-trivial = the fault was injected and judged; the release scenarios measure this thread's live heap bytes",
+            assumptions: vec!["a flush with nothing at all to hand over may return Ok after the body was dropped (weaker reading, see DESIGN.md 4.8)"],
+        },
+        Check {
+            prop: "C17",
+            level: "exploration",
+            parts: vec![part(B, 0, 300_000, 20_000_000, "streaming_body over Accept-Encoding x level x method x request representation; client decodes by the response header")],
+            rule: "as C08 with the full configuration space; non-trivial = headers judged and (for non-HEAD) the body decoded according to Content-Encoding and compared",
+            assumptions: vec!["the real should_gzip is the oracle for the negotiation, as the property states (its own correctness is C16, not claimed)"],
+        },
+        Check {
             prop: "C12",
             level: "exploration",
-            parts: vec![part(A, 0, 2_000_000, 100_000_000, "size_hint/is_end_stream sampled before every poll of serve() bodies and of Body::from/empty")],
+            parts: vec![part(A, 0, 2_000_000, 100_000_000, "size_hint/is_end_stream sampled before every poll of serve() bodies and of Body::from/empty"),
+                        part(B, 0, 300_000, 20_000_000, "the same monitor on streaming bodies across write/flush/abort/drop histories")],
             rule: "every poll of every run is preceded by a sample; non-trivial = more than one sample; distinct as C01",
             assumptions: vec!["for serve() only contract-honouring entities count: fault-free streams and streams failing early with an Err"],
         },
@@ -63,14 +94,16 @@ pub fn all() -> Vec<Check> {
         Check {
             prop: "C15",
             level: "exploration",
-            parts: vec![part(A, 0, 1_500_000, 80_000_000, "every generated request replayed as HEAD against the same world, clock advanced in between")],
+            parts: vec![part(A, 0, 1_500_000, 80_000_000, "every generated request replayed as HEAD against the same world, clock advanced in between"),
+                        part(B, 0, 100_000, 5_000_000, "streaming_body for HEAD vs GET: same headers, no writer, empty body")],
             rule: "GET/HEAD pairs; non-trivial = both exchanges completed and were compared; distinct as C01 plus the clock advance",
             assumptions: vec![],
         },
         Check {
             prop: "C20",
             level: "fault_enumeration",
-            parts: vec![part(A, 0, 2_000_000, 100_000_000, "over-polling 1..4 times after every kind of terminal event of serve() bodies")],
+            parts: vec![part(A, 0, 2_000_000, 100_000_000, "over-polling 1..4 times after every kind of terminal event of serve() bodies"),
+                        part(B, 0, 300_000, 20_000_000, "over-polling streaming bodies after clean end and after abort")],
             rule: "one stream fault (or none) per run, then k extra polls after the first terminal event; non-trivial = at least one extra poll happened; grid = body shape x terminal kind x extra polls",
             assumptions: vec!["the simulated entity's own streams are fused (stay finished), as the property presupposes"],
         },
